@@ -305,14 +305,21 @@ package remote
 //@ // revision (the list algebra - each key once, compaction complete - is not: the obligations
 //@ // were written but the solvers did not discharge the compaction loop; see DESIGN.md 13.7).
 //@ pure isZeroD(d ocispec.Descriptor) bool = d.Size == 0 && d.Digest == "" && d.MediaType == ""
+//@ ghost local arcSkipped bool
 //@ func applyReferrerChanges
 //@   opt trust-nopanic
 //@   opt trust-frame
+//@   entry set arcSkipped = false
+//@   loop 0 backedge set arcSkipped = arcSkipped || len(next.updatedReferrers) == len(updatedReferrers)
 //@   loop 0 invariant [objects] referrersMap != nil && alive(referrersMap)
+//@   loop 0 invariant [C14:an-original-entry-that-was-not-taken-over-forces-an-update] arcSkipped ==> updateRequired
 //@   loop 1 invariant [objects] referrersMap != nil && alive(referrersMap)
+//@   loop 1 invariant [C14:an-original-entry-that-was-not-taken-over-forces-an-update] arcSkipped ==> updateRequired
 //@   loop 2 invariant [objects] referrersMap != nil && alive(referrersMap) && len(referrersMap) == len(referrers)
+//@   loop 2 invariant [C14:an-original-entry-that-was-not-taken-over-forces-an-update] arcSkipped ==> updateRequired
 //@   loop 2 invariant [C14:original-referrers-checked-one-by-one] updateRequired || (forall q int :: 0 <= q && q < $i ==> K(referrers[q]) in referrersMap)
 //@   ensures@0 [C14:no-update-only-when-every-original-referrer-is-still-present-and-sizes-agree] result1 == errNoReferrerUpdate && len(result0) == 0 && len(referrersMap) == len(referrers) && (forall q int :: 0 <= q && q < len(referrers) ==> K(referrers[q]) in referrersMap)
+//@   ensures@0 [C14:no-update-only-when-every-original-entry-was-taken-over] !arcSkipped
 //@   call removeEmptyDescriptors requires [C14:compaction-hint-is-the-number-of-keys] args.hint == len(referrersMap) && args.descs == updatedReferrers
 //@   modifies alloc, elems[ocispec.Descriptor], new map[descriptor.Descriptor]int
 //@
